@@ -433,6 +433,11 @@ class PDA(Automaton, metaclass=abc.ABCMeta):
         InvalidAcceptanceModeError
             If this PDA has an invalid acceptance mode.
         """
+        if "" in self.stack_symbols:
+            # The empty string stands for "no symbol" (lambda input, empty stack)
+            raise exceptions.InvalidSymbolError(
+                "the empty string cannot be used as a stack symbol"
+            )
         for start_state, paths in self.transitions.items():
             self._validate_transition_invalid_symbols(start_state, paths)
         self._validate_initial_state()
